@@ -109,6 +109,21 @@ int main(int argc, char** argv) {
                         if (args == 1) (void)Tree::unary(op, Tree(a));
                         else (void)Tree::binary(op, Tree(a), Tree(cexp ? expo : b)); });
                 }
+                // interval evaluation over every pair of sign classes of the two operands (an interval
+                // operation branches on where its operands lie relative to 0, +-1 and infinity, and each
+                // branch has its own way out)
+                {
+                    static const float IV[][2] = {{-3.0f, -0.5f}, {-1.0f, 2.0f}, {0.5f, 3.0f}, {0.0f, 2.0f}, {-2.0f, 0.0f},
+                                                  {1.0f, 1.0f}, {0.0f, 0.0f}, {-0.5f, 0.5f}, {0.9f, 1.5f}, {-1.5f, -0.9f},
+                                                  {-INFINITY, 1.0f}, {2.0f, INFINITY}, {-INFINITY, INFINITY}, {-1e30f, 1e30f}};
+                    const int NIV = sizeof(IV) / sizeof(IV[0]);
+                    for (int ia = 0; ia < NIV; ++ia) for (int ib = 0; ib < (args == 2 && !cexp ? NIV : 1); ++ib) {
+                        char cls[64]; snprintf(cls, sizeof cls, "([%g,%g],[%g,%g])", IV[ia][0], IV[ia][1], IV[ib][0], IV[ib][1]);
+                        Eigen::Vector3f lo(IV[ia][0], IV[ib][0], 0), hi(IV[ia][1], IV[ib][1], 1);
+                        probe(base + ":interval" + cls, [&] { ev.eval(lo, hi); });
+                        probe(base + ":intervalpush" + cls, [&] { ev.intervalAndPush(lo, hi); });
+                    }
+                }
             }
         }
         // entry points
